@@ -17,7 +17,7 @@
 (*        Send (a request reaches a tower) Reply (the tower answers)       *)
 (*        ManualRetry Abandon SetUp Kill Restart                           *)
 (*   hidden (inside the client):  NotifySnap NotifyLocal NotifyRecv        *)
-(*        RegRefused RegRecv MgrRecv MgrDrop MgrStart MgrWake RunBegin     *)
+(*        RegRefused RegRecv MgrDrain MgrDrop MgrStart MgrWake RunBegin    *)
 (*        RunRefused RunRegRecv RunRecv RunMove RunRetry (= BackoffWait)   *)
 (*        GiveUp RunEnd                                                    *)
 (* The data layer (tables, summaries) is ClientStore.tla (C18).            *)
@@ -63,7 +63,8 @@ Dev(d) == d \in DEVIATIONS
 
 \* Time (trace validation): hidden steps happen between the previous logged event (tm.prev) and this one (tm.now).
 \*   minb  minimal back-off before the next attempt        wake  minimal idle time before the automatic retry
-Tm0 == [minb |-> 0, prev |-> 0, now |-> 0, wake |-> 0]
+\*   tick  minimal time between two rounds of the retry manager
+Tm0 == [minb |-> 0, prev |-> 0, now |-> 0, wake |-> 0, tick |-> 0]
 
 RetAbsent == [s |-> "absent", pend |-> {}, pc |-> "-", cur |-> NoLoc, rep |-> NoRep, seq |-> 0,
               nf |-> 0,      \* answers without progress since the last back-off wait (C13 NoFlood)
@@ -82,6 +83,7 @@ InitClient ==
      alive |-> TRUE,
      poisoned |-> FALSE,                           \* the state mutex is poisoned
      mgr |-> TRUE,                                 \* the manager task is alive
+     mgrN |-> 0,                                   \* earliest time of its next round (trace validation; 0 otherwise)
      \* ghosts
      done |-> {},                                  \* <<t, l>>: a handler for l has finished with tower t
      moving |-> {},                                \* <<t, l>>: move pending -> accepted / invalid begun, not completed
@@ -283,19 +285,26 @@ SetRt(c, t, r) == [c EXCEPT !.rt[t] = r]
 
 MgrDies(c) == [Die(c) EXCEPT !.mgr = FALSE]
 
-MgrRecv(c) ==
-    IF ~c.mgr THEN {}
-    ELSE UNION {
-        LET t == m.t r == c.rt[t] c1 == [c EXCEPT !.chan = @ \ {m}] IN
-        IF c.poisoned THEN {MgrDies(c)}
-        ELSE IF ~Known(c, t) THEN {c1}
-        ELSE IF r.s = "idle"
-             THEN (IF m.k = "none"
-                   THEN {[c1 EXCEPT !.rt[t].s = "stopped", !.rt[t].pend = @ \cup PendOf(c.st.db, t), !.inmap[t] = "none"]}
-                   ELSE {c1})
-        ELSE IF r.s = "absent" THEN {[c1 EXCEPT !.rt[t] = [RetAbsent EXCEPT !.s = "stopped", !.pend = m.ls]]}
-        ELSE {[c1 EXCEPT !.rt[t].pend = @ \cup m.ls]}
-        : m \in c.chan}
+\* One round of the manager loop takes everything that is queued (try_recv until the queue is empty), then looks after
+\* the retriers and sleeps for a second: rounds are tm.tick apart (trace validation; 0 in model checking).
+MgrDrain(c, tm) ==
+    IF ~c.mgr \/ c.chan = {} \/ tm.now < c.mgrN THEN {}
+    ELSE IF c.poisoned THEN {MgrDies(c)}
+    ELSE LET Has(t) == \E m \in c.chan : m.t = t
+             HasNone(t) == \E m \in c.chan : m.t = t /\ m.k = "none"
+             D(t) == UNION {m.ls : m \in {x \in c.chan : x.t = t}}
+             Woken(t) == Has(t) /\ Known(c, t) /\ c.rt[t].s = "idle" /\ HasNone(t)
+             NewRt(t) ==
+                 LET r == c.rt[t] IN
+                 IF ~Has(t) \/ ~Known(c, t) THEN r                  \* (messages for an abandoned tower are dropped)
+                 ELSE IF r.s = "idle"
+                      \* a manual retry wakes it (pending data reloaded from disk); data sent to an idle retrier is dropped
+                      THEN (IF HasNone(t) THEN [r EXCEPT !.s = "stopped", !.pend = @ \cup PendOf(c.st.db, t) \cup D(t)] ELSE r)
+                 ELSE IF r.s = "absent" THEN (IF D(t) = {} THEN r ELSE [RetAbsent EXCEPT !.s = "stopped", !.pend = D(t)])
+                 ELSE [r EXCEPT !.pend = @ \cup D(t)]
+         IN {[c EXCEPT !.chan = {}, !.rt = [t \in Towers |-> NewRt(t)],
+                       !.inmap = [t \in Towers |-> IF Woken(t) THEN "none" ELSE @[t]],
+                       !.mgrN = (tm.prev \div 300) * 300 + tm.tick]}
 
 \* the queue is empty: forget retriers that failed or have nothing to do
 MgrDrop(c, t) ==
@@ -505,7 +514,7 @@ SetUp(c, t, b) == [c EXCEPT !.up[t] = b]
 \* SIGKILL: everything that is not on disk is gone (transactions are atomic: every step above has at most one)
 Kill(c) ==
     [c EXCEPT !.st.mem = {}, !.rt = [t \in Towers |-> RetAbsent], !.inmap = [t \in Towers |-> "none"], !.chan = {},
-              !.nots = {}, !.regs = {}, !.alive = FALSE, !.poisoned = FALSE, !.mgr = FALSE,
+              !.nots = {}, !.regs = {}, !.alive = FALSE, !.poisoned = FALSE, !.mgr = FALSE, !.mgrN = 0,
               !.ntask = [t \in Towers |-> 0]]
 
 \* start: summaries rebuilt from disk; the retriers of the towers with pending data are told
@@ -524,7 +533,7 @@ Hidden(c, tm) ==
          \cup UNION {NotifyRecv(c, n) : n \in c.nots}
          \cup UNION {RegRefused(c, g) : g \in c.regs}
          \cup UNION {RegRecv(c, g) : g \in c.regs}
-         \cup MgrRecv(c)
+         \cup MgrDrain(c, tm)
          \cup UNION {MgrDrop(c, t) \cup MgrStart(c, t, tm) \cup MgrWake(c, t, tm) \cup RunBegin(c, t) \cup RunLocal(c, t)
                      \cup RunRegRecv(c, t, tm) \cup RunRecv(c, t, tm) \cup RunMove(c, t) \cup RunRetry(c, t)
                      \cup GiveUp(c, t, tm) \cup RunEnd(c, t) : t \in Towers}
